@@ -250,10 +250,23 @@ fn check_op(op: &DiffOp, old: &[u32], new: &[u32], out: &mut Local) {
             op.apply_to_hook(&mut r).unwrap();
             r.finish().unwrap();
         }
+        // a capture that has been USED BEFORE: it completed a whole diff (the algorithm finished it), was
+        // then explicitly finished once more, and now receives the op
+        let mut c3 = Capture::new();
+        similar::algorithms::diff_slices(similar::Algorithm::Myers, &mut c3, &[1u8, 2][..], &[1u8, 3, 2][..]).unwrap();
+        c3.finish().unwrap();
+        let before = c3.ops().len();
+        op.apply_to_hook(&mut c3).unwrap();
+        let used_before = c3.into_ops()[before..].to_vec();
+        USED_CAPTURE.with(|u| *u.borrow_mut() = used_before);
         (c.into_ops(), c2.into_ops())
     }) {
         Err(p) => out.violation("panic", format!("apply_to_hook panicked: {} | {}", p, ctx())),
         Ok((owned, by_ref)) => {
+            let used = USED_CAPTURE.with(|u| std::mem::take(&mut *u.borrow_mut()));
+            if used != vec![*op] {
+                out.violation("expand.apply_to_used_capture", format!("{} | re-applying to a Capture that completed another diff before appends {:?}", ctx(), used));
+            }
             if owned != vec![*op] {
                 out.violation("expand.apply_to_hook", format!("{} | re-applying to a Capture gives {:?}", ctx(), owned));
             }
@@ -264,8 +277,117 @@ fn check_op(op: &DiffOp, old: &[u32], new: &[u32], out: &mut Local) {
     }
 }
 
+thread_local! {
+    static USED_CAPTURE: std::cell::RefCell<Vec<DiffOp>> = std::cell::RefCell::new(Vec::new());
+}
+
+/// A sequence that lives in a window `base .. base + data.len()` of a huge index space (nothing is
+/// allocated outside it; reads outside panic).
+struct Virt {
+    base: usize,
+    data: Vec<u32>,
+}
+
+impl std::ops::Index<usize> for Virt {
+    type Output = u32;
+    fn index(&self, i: usize) -> &u32 {
+        assert!(i >= self.base && i - self.base < self.data.len(), "read at index {} outside the sequence {}..+{}", i, self.base, self.data.len());
+        &self.data[i - self.base]
+    }
+}
+
+impl std::ops::Index<std::ops::Range<usize>> for Virt {
+    type Output = [u32];
+    fn index(&self, r: std::ops::Range<usize>) -> &[u32] {
+        assert!(r.start >= self.base && r.end >= r.start && r.end - self.base <= self.data.len(), "read of {:?} outside the sequence {}..+{}", r, self.base, self.data.len());
+        &self.data[r.start - self.base..r.end - self.base]
+    }
+}
+
+/// R-EXPAND for ops whose positions lie anywhere in the index space (computed from the op's fields alone)
+fn check_op_virtual(op: &DiffOp, old: &Virt, new: &Virt, out: &mut Local) {
+    let ctx = || format!("op={:?} old = {} items at {}.. new = {} items at {}..", op, old.data.len(), old.base, new.data.len(), new.base);
+    let (t, orange, nrange) = op.as_tag_tuple();
+    let mut expect: Vec<Row> = Vec::new();
+    use similar::DiffTag;
+    match t {
+        DiffTag::Equal => {
+            for k in 0..orange.len() {
+                expect.push((ChangeTag::Equal, Some(orange.start + k), Some(nrange.start + k), old.data[orange.start + k - old.base]));
+            }
+        }
+        _ => {
+            if t != DiffTag::Insert {
+                for k in 0..orange.len() {
+                    expect.push((ChangeTag::Delete, Some(orange.start + k), None, old.data[orange.start + k - old.base]));
+                }
+            }
+            if t != DiffTag::Delete {
+                for k in 0..nrange.len() {
+                    expect.push((ChangeTag::Insert, None, Some(nrange.start + k), new.data[nrange.start + k - new.base]));
+                }
+            }
+        }
+    }
+    out.eval();
+    match guard(|| op.iter_changes(old, new).map(|c| (c.tag(), c.old_index(), c.new_index(), c.value())).collect::<Vec<Row>>()) {
+        Err(p) => out.violation("panic", format!("iter_changes panicked: {} | {}", p, ctx())),
+        Ok(got) => {
+            out.count_n("changes_observed_in_huge_index_spaces", got.len() as u64);
+            if got != expect {
+                out.violation("expand.iter_changes", format!("{} | got {:?} | expected {:?}", ctx(), got, expect));
+            }
+        }
+    }
+    out.eval();
+    match guard(|| op.iter_slices(old, new).map(|(t, s)| (t, s.to_vec())).collect::<Vec<_>>()) {
+        Err(p) => out.violation("panic", format!("iter_slices panicked: {} | {}", p, ctx())),
+        Ok(got) => {
+            let flat: Vec<(ChangeTag, u32)> = got.iter().flat_map(|(t, s)| s.iter().map(move |x| (*t, *x))).collect();
+            let items: Vec<(ChangeTag, u32)> = expect.iter().map(|r| (r.0, r.3)).collect();
+            if flat != items {
+                out.violation("expand.slices_vs_changes", format!("{} | slices flatten to {:?} but changes are {:?}", ctx(), flat, items));
+            }
+        }
+    }
+    let fails = iter_battery(&|| op.iter_changes(old, new), &|c| format!("{:?}", (c.tag(), c.old_index(), c.new_index(), c.value())), orange.start as u64 ^ nrange.end as u64);
+    if let Some(f) = fails.first() {
+        out.violation("expand.iterator_protocol", format!("{} | {}", f, ctx()));
+    }
+}
+
 pub fn families() -> Vec<Box<dyn Family>> {
     vec![
+        family(
+            "huge_index_spaces",
+            "ops whose positions lie near the top and around the powers of two of the index space: the old and the new sequence are windows of 8 items based at usize::MAX - 8 (the range end IS usize::MAX), usize::MAX - 9, 2^63 - 4, 2^32 - 4, 2^31 - 4, 2^16 - 4 and 0 (all 7 x 7 combinations) x every op kind x offsets / lengths 0..=4: item-wise and slice-wise expansion and the iterator battery through user-defined Index types",
+            true,
+            16,
+            |_| 7 * 7 * 4 * 5 * 5 * 5 * 5,
+            |idx, _cfg, out| {
+                const BASES: [usize; 7] = [usize::MAX - 8, usize::MAX - 9, (1 << 63) - 4, (1 << 32) - 4, (1 << 31) - 4, (1 << 16) - 4, 0];
+                let ob = BASES[(idx % 7) as usize];
+                let nb = BASES[(idx / 7 % 7) as usize];
+                let r = idx / 49;
+                let kind = (r % 4) as usize;
+                let o = ((r / 4) % 5) as usize;
+                let ol = ((r / 20) % 5) as usize;
+                let n = ((r / 100) % 5) as usize;
+                let nl = ((r / 500) % 5) as usize;
+                if o + ol > 8 || n + nl > 8 {
+                    return;
+                }
+                let old = Virt { base: ob, data: (0..8).map(|i| 100 + i).collect() };
+                let new = Virt { base: nb, data: (0..8).map(|i| 200 + i * 3).collect() };
+                let op = make_op(kind, ob + o, ol, nb + n, nl);
+                if op.old_range().is_empty() && op.new_range().is_empty() {
+                    return;
+                }
+                out.nontrivial(&op);
+                out.sample(|| format!("{:?}", op));
+                check_op_virtual(&op, &old, &new, out);
+            },
+        ),
         family(
             "ops_exh",
             "exhaustive: every op kind x old offset/length and new offset/length in 0..=4 (in bounds; length 0 excluded for the consumed side) over two fixed sequences of 6 distinct items whose old/new values differ at every index",
